@@ -63,6 +63,16 @@ func c01Gen(t *rapid.T) interface{} {
 			hi = q + 1
 		}
 		d := genSynthDoc(t, i, lo, hi)
+		if hi > q+1 && lib.IntN(t, 0, 5, "schedule") == 0 {
+			// a schedule: hundreds of rows that share a boilerplate longer than any q, so that one q-gram sits at
+			// hundreds of positions of the document (the longest repeat in the shipped corpus is 155 positions at q=2)
+			rows := lib.IntN(t, 200, 700, "scheduleRows")
+			var sb strings.Builder
+			for r := 0; r < rows; r++ {
+				fmt.Fprintf(&sb, "item %d the licensee shall pay to the licensor the fee stated in this schedule for the use of part %d\n", r, r*3+1)
+			}
+			d.Text = sb.String()
+		}
 		c.Corpus.Synth = append(c.Corpus.Synth, d)
 		if lib.IntN(t, 0, 3, "twin") == 0 {
 			// the same text under the same name in another category (a license that is also its own header), in
